@@ -5,83 +5,42 @@ import InvProxy.Model.Route
 namespace InvProxy.Route
 open InvProxy InvProxy.Gen
 
-/-! ### generated loops = fold -/
+/-! ### generated loops = fold
 
-theorem inner_loop (path bid : Bytes) (ps : List Bytes) (acc : Bytes × Bytes) :
-    (forIn (m := Id) ps acc (fun p __s =>
-        have closestMatch := __s.fst;
-        have longestMatchingPath := __s.snd;
-        have p := p;
-        if Go.hasPrefix path p = true then
-          if (closestMatch == [] || decide (List.length p > List.length longestMatchingPath)) = true then
-            have longestMatchingPath := p;
-            have closestMatch := bid;
-            pure (ForInStep.yield (closestMatch, longestMatchingPath))
-          else pure (ForInStep.yield (closestMatch, longestMatchingPath))
-        else pure (ForInStep.yield (closestMatch, longestMatchingPath)))) =
-    pure ((ps.map (fun p => (bid, p))).foldl (stepMS path) acc) := by
-  induction ps generalizing acc with
+  The proof does not mention the shape of the generated loop bodies: `forIn_yield_fold` reduces
+  a loop whose body always yields to a fold, and the per-iteration equation is found by
+  splitting every `if` of whatever body goextract produced (nested ifs, guard clauses with
+  `continue`, renamed locals all go through). -/
+
+theorem forIn_yield_fold {α β : Type} (l : List α) (init : β) (f : α → β → Id (ForInStep β)) (g : β → α → β)
+    (h : ∀ a b, f a b = pure (ForInStep.yield (g b a))) : forIn (m := Id) l init f = pure (l.foldl g init) := by
+  induction l generalizing init with
   | nil => rfl
-  | cons p ps ih =>
-    simp only [List.forIn_cons, List.map_cons, List.foldl_cons]
-    by_cases h1 : Go.hasPrefix path p = true
-    · by_cases h2 : (acc.1 == [] || decide (List.length p > List.length acc.2)) = true
-      · have hs : stepMS path acc (bid, p) = (bid, p) := by
-          simp only [stepMS, h1, h2, if_true]
-        rw [hs]
-        simp only [h1, h2, if_true]
-        exact ih _
-      · have hs : stepMS path acc (bid, p) = acc := by
-          simp only [stepMS, h1, h2, if_true]; simp
-        rw [hs]
-        simp only [h1, h2, if_true]
-        exact ih _
-    · have hs : stepMS path acc (bid, p) = acc := by
-        simp only [stepMS, h1]; simp
-      rw [hs]
-      simp only [h1]
-      exact ih _
+  | cons a l ih =>
+    simp only [List.forIn_cons, h, List.foldl_cons]
+    exact ih _
 
-theorem outer_loop (path : Bytes) (bs : List Backend) (acc : Bytes × Bytes) :
-    (forIn (m := Id) bs acc (fun b __s =>
-            have closestMatch := __s.fst;
-            have longestMatchingPath := __s.snd;
-            have b := b;
-            do
-            let __s ←
-              forIn b.PathPrefixes (closestMatch, longestMatchingPath) fun p __s =>
-                  have closestMatch := __s.fst;
-                  have longestMatchingPath := __s.snd;
-                  have p := p;
-                  if Go.hasPrefix path p = true then
-                    if (closestMatch == [] || decide (List.length p > List.length longestMatchingPath)) = true then
-                      have longestMatchingPath := p;
-                      have closestMatch := b.BackendID;
-                      pure (ForInStep.yield (closestMatch, longestMatchingPath))
-                    else pure (ForInStep.yield (closestMatch, longestMatchingPath))
-                  else pure (ForInStep.yield (closestMatch, longestMatchingPath))
-            have closestMatch : Bytes := __s.fst
-            have longestMatchingPath : Bytes := __s.snd
-            pure (ForInStep.yield (closestMatch, longestMatchingPath)))) =
-    pure ((pairs bs).foldl (stepMS path) acc) := by
+theorem pairs_foldl (path : Bytes) (bs : List Backend) (acc : Bytes × Bytes) :
+    (pairs bs).foldl (stepMS path) acc =
+      bs.foldl (fun acc b => (b.PathPrefixes.map (fun p => (b.BackendID, p))).foldl (stepMS path) acc) acc := by
   induction bs generalizing acc with
   | nil => rfl
-  | cons b bs ih =>
-    simp only [List.forIn_cons, pairs, List.flatMap_cons, List.foldl_append]
-    have := inner_loop path b.BackendID b.PathPrefixes acc
-    simp only [Prod.eta] at this ⊢
-    rw [this]
-    simp only [pure_bind]
-    exact ih _
+  | cons b bs ih => simp only [pairs, List.flatMap_cons, List.foldl_append, List.foldl_cons]; exact ih _
 
 theorem gen_eq_mostSpecific (path : Bytes) (bs : List Backend) :
     store_mostSpecificMatchingBackend path bs = mostSpecific path bs := by
   unfold store_mostSpecificMatchingBackend mostSpecific
-  have := outer_loop path bs ([], [])
-  simp only [Prod.eta] at this ⊢
-  rw [this]
-  simp only [pure_bind]
-  split <;> rfl
+  simp only [Id.run]
+  rw [forIn_yield_fold _ _ _ (fun acc b => (b.PathPrefixes.map (fun p => (b.BackendID, p))).foldl (stepMS path) acc)]
+  · simp only [pure_bind, ← pairs_foldl]
+    split <;> first | rfl | simp_all
+  · intro b acc
+    rw [forIn_yield_fold _ _ _ (fun acc p => stepMS path acc (b.BackendID, p))]
+    · simp [List.foldl_map]
+    · intro p s
+      simp only [stepMS]
+      repeat' split
+      all_goals simp_all
 
 /-! ### fold over the matching pairs -/
 
